@@ -202,7 +202,7 @@ def run():
     rep = Report("C16", "model_checking")
     c = CFG[tier()]
     # ---- 1. model checking + state dump
-    res, states = tlc.dump_states("MC_Mesh", c["cfg"], name="c16_mc")
+    res, states = tlc.dump_states("MC_Mesh", c["cfg"], name=f"c16_mc_{tier()}")
     if res.get("violated"):
         raise MachineryError(f"MC_Mesh violates {res['violated']} - the ground truth of the specification is inconsistent:\n{res['out'][-3000:]}")
     tlc.require_ok(res)
@@ -226,7 +226,7 @@ def run():
         raise MachineryError(f"no observers printed by MC_Mesh for {missing}")
     rep.phase("plan")
     # ---- 2. drive the implementation
-    d = workdir("traces/c16")
+    d = workdir(f"traces/c16_{tier()}")       # per tier, so that a quick and a thorough run do not wipe each other's traces
     r = rng("c16shuffle")
     order = list(range(len(jobs)))
     r.shuffle(order)                     # balance the shards
